@@ -25,6 +25,8 @@ __all__ = [
 LOGGER = srctools.logger.get_logger(__name__)
 # Hidden variable to track the number of recursions.
 RECUR_COUNT_ATTR = '_inst_recur_count'
+# Hidden attribute holding the (casefolded) filenames of the instances a func_instance came from.
+RECUR_FILES_ATTR = '_inst_recur_files'
 # Prevent displaying errors for missing keyvalues multiple times.
 _UNKNOWN_KV: set[tuple[str, str]] = set()
 
@@ -45,6 +47,7 @@ class Instance:
     fixup_type: FixupStyle
     fixup: EntityFixup
     recur_count: int
+    recur_files: frozenset[str]
     outputs: list[Output]
 
     ent_ids: dict[int, int]
@@ -77,6 +80,7 @@ class Instance:
         self.visgroup_ids = {}
         # Keep track of recursive instances to handle loops.
         self.recur_count = 0
+        self.recur_files = frozenset()
 
     @classmethod
     def from_entity(cls, ent: Entity) -> 'Instance':
@@ -101,6 +105,7 @@ class Instance:
             ent.fixup.copy_values(),
         )
         inst.recur_count = getattr(ent, RECUR_COUNT_ATTR, 0)
+        inst.recur_files = getattr(ent, RECUR_FILES_ATTR, frozenset())
         return inst
 
     def fixup_name(self, name: str) -> str:
@@ -466,6 +471,7 @@ def collapse_one(
         # Set a hidden attribute to keep track of recursive instancing.
         if classname.casefold() == 'func_instance':
             setattr(new_ent, RECUR_COUNT_ATTR, inst.recur_count + 1)
+            setattr(new_ent, RECUR_FILES_ATTR, inst.recur_files | {inst.filename.casefold()})
 
         # Now keyvalues.
         # First extract a rotated angles value, handling the special "pitch" and "yaw" keys.
@@ -578,6 +584,10 @@ def collapse_all(
             return  # No more instances, success!
         for inst_ent in instances:
             inst = Instance.from_entity(inst_ent)
+            if inst.filename.casefold() in inst.recur_files:
+                # This instance is (indirectly) inside itself. Each round would multiply the number
+                # of copies, so don't wait for the recursion limit to be hit.
+                raise RecursionError(f'Loop in instances: "{inst.filename}" contains itself!')
             inst_ent.remove()
             LOGGER.debug('Collapse {} @ {}', inst.filename, inst.pos)
             if not inst.name:
